@@ -446,7 +446,21 @@ def r04_9(ctx) -> None:
                 ok = a is not None and norm(a) == "sender_key"
                 ctx.check(ok, "R04.9", fn, s.node, f"{fn.short} -> {c.short}", f"{fn.short} does not pass its `sender_key` on to {c.short} "
                           f"({'argument omitted' if a is None else 'passes ' + norm(a)})", "sender_key=sender_key", construct=f"sender_key forwarding {fn.short} -> {c.short}")
-    ctx.count("R04.9", n, 2, "call sites between functions that both take `sender_key`")
+    # the key handed to the sender-key resolution is the caller's sender key (not the recipient's key, the plaintext, ...)
+    gs = eng.prog.func("jwe:_guess_sender_key")
+    for s in eng.cg.callers.get(gs, []):
+        if isinstance(s.node, ast.Call) and "sender_key" in s.fn.params:
+            n += 1
+            a = eng.cg.arg_for_param(s, gs, gs.pos_params[1])
+            ctx.check(a is not None and norm(a) == "sender_key", "R04.9", s.fn, s.node, f"{s.fn.short} -> _guess_sender_key", f"{s.fn.short} resolves the ECDH-1PU sender key from "
+                      f"`{norm(a) if a is not None else '?'}` instead of its `sender_key` argument", "_guess_sender_key(recipient, sender_key, ...)", construct=f"sender key source in {s.fn.short}")
+            cfg = cfg_of(s.fn)
+            sn = cfg.node_of(s.node)
+            ctl = [t for t in cfg.nodes if t.kind == "test" and isinstance(t.ast, ast.Name) and sn is not None
+                   and sn not in cfg.reachable(cfg.entry, edge_filter=lambda a_, b_, lab, _t=t: not (a_ is _t and lab == "true"))]
+            ctx.check(all(t.ast.id == "sender_key" for t in ctl), "R04.9", s.fn, s.node, f"{s.fn.short} :: sender key condition", f"the sender key is resolved under a test of "
+                      f"{[t.ast.id for t in ctl]}, not of `sender_key`", "if sender_key:", construct=f"sender key condition in {s.fn.short}")
+    ctx.count("R04.9", n, 5, "call sites that forward / resolve the sender key")
 
 
 def run(ctx) -> None:
